@@ -159,13 +159,13 @@ theorem leap_format_normalised (t : Time) (hv : TValid t) (hl : 1000000000 ≤ t
 /-- a format with a full date, a full time with the second and nine fraction digits, and an offset item
 loses nothing of a zone-aware value with a whole-minute offset -/
 theorem truncate_zoned_exact (is : List Item) (z : Zoned) (hz : ZInv z) (l : NaiveDT)
-    (hl : z.overflowing_naive_local = .ok l) (htv : TValid l.time)
+    (hl : z.overflowing_naive_local = .ok l) (htv : TValid l.time) (hw : wallInRange l.date = true)
     (hfd : fullDate (carries is) = true) (hft : fullTime (carries is) = true)
     (hs : (carries is).second = true) (hf : fracDigits is = 9) (ho : (carries is).offset = true)
     (hm : z.off % 60 = 0) : truncate_to_precision is (.zoned z) = some (.zoned z) := by
   cases l with
   | mk d t =>
-    simp only [truncate_to_precision, hfd, hft, Bool.and_self, if_true, hl, ho, rounded_of_whole _ hm,
+    simp only [truncate_to_precision, hfd, hft, Bool.and_self, if_true, hl, ho, rounded_of_whole _ hm, hw,
       truncTime_exact is t htv hs hf, Chrono.Proofs.ZN.from_local_of_wall z hz ⟨d, t⟩ hl]
 
 theorem truncTime_leap_ne (is : List Item) (t : Time) (hv : TValid t) (hl : 1000000000 ≤ t.frac)
